@@ -5,7 +5,7 @@
    evaluated on the implementation's own observations. *)
 From Coq Require Import List NArith ZArith Bool String Ascii Strings.Byte.
 From FwdLib Require Import Bytes.
-From G03 Require Import Tables Tunnel Abstract ReplyReader Deadlines.
+From G03 Require Import Tables Tunnel Abstract Weak ReplyReader Deadlines.
 Import ListNotations.
 Open Scope N_scope.
 
@@ -150,6 +150,8 @@ Record obs := {
 Record ccase := {
   cc_mode : N; cc_wellformed : bool; cc_grace : Z; cc_fr : framing;
   cc_tmo : timeouts; cc_treq : Z; cc_tresp : Z;
+  cc_weak : bool;            (* the dialled connection carries TLS: its plaintext operations are hidden *)
+  cc_cipher_w : N; cc_cipher_r : N;   (* bytes of ciphertext the proxy wrote to / read from it over the whole connection *)
   cc_early : list N; cc_skip : list N; cc_kept : list N;
   cc_trace : option (list label); cc_obs : obs
 }.
@@ -185,14 +187,14 @@ Definition final_ok (mode : N) (grace : Z) (s : state) (o : obs) : bool :=
   && Bool.eqb (s_up s) (o_closed_up o) && Bool.eqb (s_down s) (o_closed_down o)
   && Bool.eqb (s_forced s) (o_forced o)
   && implb (s_forced s) (grace <=? o_force_gap o)%Z
-  && ((mode =? 5) || str_eqb (o_reply o) connect_ok_response).
+  && ((mode =? 5) || (mode =? 6) || str_eqb (o_reply o) connect_ok_response).
 
 (* What the upstream reply reader takes beyond the reply head, as the model of
    dialvia (ReplyReader.v) predicts it from the shapes in Tables.v: only an HTTP
    upstream (mode 1) has a body to close; a chunked body makes the amount
    unpredictable (the tunnel bytes are parsed as chunk framing). *)
 Definition predicted_skip (mode : N) (fr : framing) (avail : N) : option N :=
-  if mode =? 1
+  if (mode =? 1) || (mode =? 2)
   then (if reply_reader_bytewise then
           if fr_chunked fr && negb connect_2xx_body_ignored && connect_2xx_body_closed then None
           else Some (close_consumes connect_2xx_body_ignored connect_2xx_body_closed fr avail)
@@ -204,13 +206,23 @@ Definition skip_ok (mode : N) (fr : framing) (avail skip : N) : bool :=
 Definition cinit (c : ccase) : state :=
   let '(r, w) := case_deadlines (cc_tmo c) (cc_treq c) (cc_tresp c) in init (cc_early c) (cc_skip c) (cc_kept c) r w.
 
+Definition crun (c : ccase) (tr : list label) : option state :=
+  if cc_weak c
+  then (if forallb observable tr then wrun (tables_shape (cc_grace c)) (cinit c) tr else None)
+  else run (tables_shape (cc_grace c)) (cinit c) tr.
+
+(* TLS only adds to what it carries: the ciphertext written covers the plaintext delivered *)
+Definition cipher_ok (c : ccase) (s : state) : bool :=
+  implb (cc_weak c) ((len (d_rcv (s_ct s)) <=? cc_cipher_w c)
+                     && (len (d_rcv (s_tc s)) + len (d_buf (s_tc s)) <=? cc_cipher_r c)).
+
 Definition cmodel_ok (c : ccase) : bool :=
   cc_wellformed c && skip_ok (cc_mode c) (cc_fr c) (len (o_sent (o_tc (cc_obs c)))) (len (cc_skip c)) &&
   match cc_trace c with
   | None => false
   | Some tr =>
-    match run (tables_shape (cc_grace c)) (cinit c) tr with
-    | Some s => final_ok (cc_mode c) (cc_grace c) s (cc_obs c)
+    match crun c tr with
+    | Some s => final_ok (cc_mode c) (cc_grace c) s (cc_obs c) && cipher_ok c s
     | None => false
     end
   end.
@@ -219,7 +231,7 @@ Definition cmodel_ok (c : ccase) : bool :=
 Definition crefusal (c : ccase) : option N :=
   match cc_trace c with
   | None => Some 0
-  | Some tr => refused_at (tables_shape (cc_grace c)) (cinit c) tr 0
+  | Some tr => if cc_weak c then None else refused_at (tables_shape (cc_grace c)) (cinit c) tr 0
   end.
 
 (* ---------------------------------------------------------- length level *)
@@ -259,7 +271,7 @@ Definition afinal_ok (mode : N) (grace : Z) (s : astate) (o : aobs) : bool :=
   && Bool.eqb (as_up s) (a_closed_up o) && Bool.eqb (as_down s) (a_closed_down o)
   && Bool.eqb (as_forced s) (a_forced o)
   && implb (as_forced s) (grace <=? a_force_gap o)%Z
-  && ((mode =? 5) || str_eqb (a_reply o) connect_ok_response).
+  && ((mode =? 5) || (mode =? 6) || str_eqb (a_reply o) connect_ok_response).
 
 Definition acinit (c : acase) : astate :=
   let '(r, w) := case_deadlines (ac_tmo c) (ac_treq c) (ac_tresp c) in ainit (ac_early c) (ac_skip c) (ac_kept c) r w.
